@@ -275,7 +275,11 @@ pub fn run_node<C: MakeCustom, Q: MakeCustomQuery>(
         post_reads,
     });
 
-    // 5. the injected fault: body error after the writes
+    // 5. the injected faults: a crash (panic), or a body error, after the writes
+    if node.panic {
+        *world.0.borrow_mut().faults_fired.entry(format!("{}_body_panic", kind)).or_insert(0) += 1;
+        panic!("scripted contract panic");
+    }
     if node.fail {
         *world.0.borrow_mut().faults_fired.entry(format!("{}_body_err", kind)).or_insert(0) += 1;
         return Err(StdError::generic_err("scripted failure"));
